@@ -756,7 +756,7 @@ class Gen:
                 else:
                     idx = body_text.find(a['lit'], start)
                     endidx = idx
-                if idx < 0 and not a.get('optional') and a['k'] == 1 and '\\N' not in a['lit']:
+                if idx < 0 and a['k'] == 1 and '\\N' not in a['lit']:
                     # the anchored statement itself was edited: fall back to the ONE line of the body that starts like
                     # it (same statement head); the ghost text is inserted there and the approximation is reported
                     fz = fuzzy_anchor(body_text, a['lit'])
@@ -765,6 +765,9 @@ class Gen:
                         self.report.setdefault('fuzzy_anchors', []).append(dict(function=fnname, anchor=a['lit'], matched=body_text[fz:body_text.find('\n', fz)].strip()[:120]))
                 if idx < 0:
                     if a.get('optional'):
+                        # (an optional hint: on the unchanged tree its anchor exists; when it is gone the hint is left out
+                        # and a failing obligation of this function no longer counts as decided)
+                        self.report.setdefault('dropped_hints', []).append(dict(function=fnname, anchor=a['lit']))
                         break
                     raise LostAnchor('anchor "%s" #%d not found in %s' % (a['lit'], a['k'], sel))
                 start = idx + 1
@@ -860,28 +863,32 @@ class Gen:
 
 
 def fuzzy_anchor(body_text, lit):
-    """offset of the single line of body_text whose stripped text shares a long prefix with the (stripped) anchor
-    literal - at least its statement head (up to the first '=' or '(' inclusive); None when there is no such line or more
-    than one"""
+    """offset of the single line of body_text whose stripped text starts like the (stripped) anchor literal: first with
+    its statement head (the text up to the first '=' or '(' inclusive), and only when no line shares that much, with its
+    first two words; None when there is no such line or more than one"""
     want = lit.strip()
     if len(want) < 8:
         return None
     m = re.search(r'[=(]', want)
-    head = len(want[:m.end()]) if m else len(want.split(' ')[0])
+    head = len(want[:m.end()]) if m else len(want.rstrip(' {;'))   # no `=` / `(`: the whole statement text (`match x {`)
     m2 = re.match(r'\w+\W+\w+', want)          # first two words, e.g. `if argument` of `if argument.is_empty() {`
     two = len(m2.group(0)) if m2 else len(want)
-    need = max(6, min(head, two))
-    cands = []
-    off = 0
-    for line in body_text.split('\n'):
-        st = line.strip()
-        k = 0
-        while k < len(st) and k < len(want) and st[k] == want[k]:
-            k += 1
-        if k >= need:
-            cands.append(off + (len(line) - len(line.lstrip())))
-        off += len(line) + 1
-    return cands[0] if len(cands) == 1 else None
+    for need in sorted(set([max(6, head), max(6, min(head, two))]), reverse=True):
+        cands = []
+        off = 0
+        for line in body_text.split('\n'):
+            st = line.strip()
+            k = 0
+            while k < len(st) and k < len(want) and st[k] == want[k]:
+                k += 1
+            if k >= need:
+                cands.append(off + (len(line) - len(line.lstrip())))
+            off += len(line) + 1
+        if len(cands) == 1:
+            return cands[0]
+        if len(cands) > 1:
+            return None
+    return None
 
 
 def opaque_audit_text(frag, meth):
